@@ -147,6 +147,20 @@ class Spec:
         h["pos"] = n
         return "ok"
 
+    def hread(self, r, n, exact):
+        """bytes a read handle must deliver (exact: read until n bytes or the end; else: one read call, which may be
+        short but not empty before the end) and the cursor afterwards; None if this is not a read handle"""
+        h = self.handles.get(r)
+        if not h or h["kind"] != "r":
+            return None
+        want = h["buf"][h["pos"]:h["pos"] + n] if h["pos"] < len(h["buf"]) else b""
+        return want
+
+    def hread_done(self, r, k):
+        h = self.handles.get(r)
+        if h:
+            h["pos"] += k
+
     def hflush(self, r):
         h = self.handles.get(r)
         if not h:
@@ -239,6 +253,23 @@ def check_case(c, target, ilines, first_snap):
         line = ilines.get(("r", c.name, step))
         exp = None
         note = None
+        if op in ("hread", "hreadn", "hreadtoend"):
+            r = int(toks[1])
+            n = int(toks[2]) if op != "hreadtoend" else 1 << 62
+            want = sp.hread(r, n, op != "hread")
+            if want is None:
+                continue
+            if line and line.startswith("ok:bytes:"):
+                got = vfx.unhex(line[len("ok:bytes:"):])
+                good = (got == want) if op != "hread" else (want.startswith(got) and (len(got) > 0 or len(want) == 0 or n == 0))
+                if not good:
+                    yield step, "read handle delivered %r, the file holds %r at the cursor" % (got[:20], want[:20])
+                    return
+                sp.hread_done(r, len(got))
+            else:
+                yield step, "read on an open handle failed: " + (line or "")[:80]
+                return
+            continue
         if op in ("hwrite", "hseek", "hflush", "hdrop"):
             r = int(toks[1])
             if r not in sp.handles:
